@@ -61,6 +61,10 @@ class CallMixin(object):
         if isinstance(fv, StubMethod):
             return fv.stub.methods[fv.name](self, *args, **kwargs)
         if isinstance(fv, BoundMethod):
+            if fv.name.startswith('super.'):
+                # non-virtual call of the base-class body
+                env, ctypes = self.bind_params(fv.func, args, dict(kwargs), fv.obj, line)
+                return self.run_body(fv.func, env, ctypes, fv.obj)
             return self.call_method(fv.obj, fv.func, args, kwargs, line)
         if isinstance(fv, FuncRef):
             return self.call_function(fv.func, args, kwargs, line)
@@ -186,10 +190,24 @@ class CallMixin(object):
                 else:
                     return self.apply_contract(c, func, obj, args, kwargs, line)
         c = self.find_contract(func, obj)
+        if c is not None and isinstance(obj, Obj) and not obj.symbolic and not c.opts.get('use_on_concrete'):
+            # concrete-shaped receiver: execute the body itself (more precise than the contract); loops over symbolic
+            # ranges inside it are still cut with the callee's own invariants
+            return self.inline_with_loops(c, func, obj, args, kwargs, line)
         if c is not None:
             return self.apply_contract(c, func, obj, args, kwargs, line)
         env, ctypes = self.bind_params(func, args, dict(kwargs), obj, line)
         return self.run_body(func, env, ctypes, obj)
+
+    def inline_with_loops(self, c, func, obj, args, kwargs, line):
+        env, ctypes = self.bind_params(func, args, dict(kwargs), obj, line)
+        saved_old = self.old_env
+        if c.loops:
+            self.old_env = copy.deepcopy(dict(env))
+        try:
+            return self.run_body(func, env, ctypes, obj, contract=c if c.loops else None)
+        finally:
+            self.old_env = saved_old
 
     def is_effectively_final(self, cls, mname):
         """no subclass overrides the method"""
@@ -408,6 +426,7 @@ class CallMixin(object):
         vs = []
         fr = self.frame
         saved = {}
+        self.in_quant = getattr(self, 'in_quant', 0) + 1
         for (p, _, _) in lam.params:
             v = self.fresh('q_' + p, INT)
             vs.append(v)
@@ -417,6 +436,7 @@ class CallMixin(object):
         try:
             body = self.spec_truth(lam.body)
         finally:
+            self.in_quant -= 1
             del self.pc[mark:]
             for p, v in saved.items():
                 if v is UNBOUND:
